@@ -12,6 +12,7 @@
 
 #include "libphysica/Integration.hpp"
 #include "libphysica/Numerics.hpp"
+#include "libphysica/Verif_Hooks.hpp"
 
 namespace libphysica
 {
@@ -179,6 +180,7 @@ double Lower_Incomplete_Gamma(double x, double s)
 double GammaQint(double x, double a)
 {
 	// Compute P(x,a)
+	LIBPHYSICA_VERIF_TICK("GammaQint");
 	double gammaP;
 	double gln = GammaLn(a);
 	// How far to integrate N sqrt(a) around the peak at a-1:
@@ -221,6 +223,7 @@ double GammaPser(double x, double a)
 	del = sum = 1.0 / a;
 	while(fabs(del) > fabs(sum) * eps)
 	{
+		LIBPHYSICA_VERIF_TICK("GammaPser.term");
 		ap++;
 		del *= x / ap;
 		sum += del;
@@ -243,6 +246,7 @@ double GammaQcf(double x, double a)
 	int i		 = 1;
 	while(fabs(del - 1.0) > eps)
 	{
+		LIBPHYSICA_VERIF_TICK("GammaQcf.term");
 		double an = -1.0 * i * (i - a);
 		b += 2.0;
 		d = an * d + b;
@@ -327,6 +331,7 @@ double Inv_GammaP(double p, double a)
 	double EPS = 1.0e-8;
 	for(int i = 0; i < 12; i++)
 	{
+		LIBPHYSICA_VERIF_TICK("Inv_GammaP.halley");
 		if(x <= 0.0)
 			return 0.0;
 		double error = GammaP(x, a) - p;
